@@ -140,8 +140,9 @@ ABSL_ATTRIBUTE_NOINLINE void GarbageCollector<R>::keep_reclaim() noexcept {
   ::std::vector<ReclaimTask> tasks;
   size_t backoff_us = 1000;
   tasks.reserve(batch);
-  while (running) {
-    if (index == tasks.size()) {
+  // 收到停止标记后，仍需将已消费但尚未回收的任务回收完再退出
+  while (running || index < tasks.size()) {
+    if (running && index == tasks.size()) {
       tasks.clear();
       running = consume_reclaim_task(batch, tasks);
       index = 0;
